@@ -521,9 +521,15 @@ func r03_6(c *RC) {
 	}
 	n := 0
 	// with defer-spilled results the stores of io.EOF to the err result precede the return: find stores/returns of io.EOF
-	check := func(b *ssa.BasicBlock, pos token.Pos) {
+	// gate: the blocks whose control conditions together guard the EOF
+	// result - the returning block, and when the wait was extracted into a
+	// helper also the call sites that lead to it
+	check := func(gate []*ssa.BasicBlock, pos token.Pos) {
 		n++
-		conds := controlConds(fn, b)
+		var conds []condEdge
+		for _, gb := range gate {
+			conds = append(conds, controlConds(gb.Parent(), gb)...)
+		}
 		var emptyQ, nothingCopied, notIncomplete, closedCase bool
 		for _, ce := range conds {
 			switch x := ce.If.Cond.(type) {
@@ -602,15 +608,36 @@ func r03_6(c *RC) {
 		case *ssa.Return:
 			if len(x.Results) == 2 {
 				if _, spilled := x.Results[1].(*ssa.UnOp); !spilled && isEOF(x.Results[1]) {
-					check(b, in.Pos())
+					check([]*ssa.BasicBlock{b}, in.Pos())
 				}
 			}
 		case *ssa.Store:
 			if al, ok := x.Addr.(*ssa.Alloc); ok && al.Comment == "err" && isEOF(x.Val) {
-				check(b, in.Pos())
+				check([]*ssa.BasicBlock{b}, in.Pos())
 			}
 		}
 	})
+	// an io.EOF that a helper of Read returns as its error
+	for _, h := range withHelpers(p, fn, 2)[1:] {
+		nres := h.Signature.Results().Len()
+		if nres == 0 || h.Signature.Results().At(nres-1).Type().String() != "error" {
+			continue
+		}
+		h := h
+		instrs(h, func(b *ssa.BasicBlock, _ int, in ssa.Instruction) {
+			r, ok := in.(*ssa.Return)
+			if !ok || len(r.Results) != nres || !isEOF(retVal(r, nres-1)) {
+				return
+			}
+			gate := []*ssa.BasicBlock{b}
+			if chain, ok := callChain(p, fn, h, 2); ok {
+				for _, cs := range chain {
+					gate = append(gate, cs.Block())
+				}
+			}
+			check(gate, in.Pos())
+		})
+	}
 	if n == 0 {
 		c.Undecided("eof-conditions", fn.Pos(), "no io.EOF result found in Session.Read")
 	}
